@@ -16,7 +16,7 @@
 //! renamed by first occurrence.
 //! stdout, one line per case:
 //!   (packaged (runs (s-ac O) (s-ts O) (s-js O) (e-base O) (e-mg O)) (json same|differ) (k n) (merged ac|ts)
-//!             (stats ..) (prog ac ..) (prog ts ..) (prog mg ..) (rho ts ..) (rho mg ..))
+//!             (stats ..) (prog ac ..) (prog ts ..) (prog mg ..) (prog before ..) (rho ts ..) (rho mg ..))
 //!   | (parse-error) | (compile-error K) | (panic "file:line") | (package-panic <step> "file:line")
 //! `--no-dump` omits the prog/rho sections (run comparison only).
 //!
@@ -991,6 +991,9 @@ fn package_line(line: &str, dump: bool) -> String {
         out.push(' ');
         out.push_str(&dump_program("mg", &m, &tm.canon));
         out.push(' ');
+        // the environment's program just before this merge (input of the merge_bytecode model)
+        out.push_str(&dump_program("before", &before, &[]));
+        out.push(' ');
         out.push_str(&dump_rho("ts", &rho_ts, &ac, &tac, &tts));
         out.push(' ');
         out.push_str(&dump_rho("mg", &rho_mg, &x, if merge_ac { &tac } else { &tts }, &tm));
@@ -1024,12 +1027,83 @@ fn import_line(line: &str) -> String {
     format!("(import {} {})", one(src, modules), one(inplace, HashMap::new()))
 }
 
+/// `--dump-json`: the tree-shaken Bytecode of each source as `quiv compile` writes it (one line).
+fn dump_json_line(line: &str) -> String {
+    let items = sexp::parse_all(line);
+    let src = items[0].atom().to_string();
+    let modules = modules_of(&items[1..]);
+    match guarded(move || qvh::compile_source(&src, modules)) {
+        Ok(Ok(c)) => match guarded(|| c.program.to_bytecode_optimized(c.entry)) {
+            Ok(b) => serde_json::to_string(&b).unwrap_or_else(|e| format!("(json-error {})", e)),
+            Err(loc) => format!("(panic \"{}\")", loc),
+        },
+        Ok(Err(e)) => e.line(),
+        Err(loc) => format!("(panic \"{}\")", loc),
+    }
+}
+
+/// `--json`: `(json "<Bytecode as JSON>") (behind "<source>"*)`: what `quiv run file.json` does with a
+/// hand-written Bytecode: run it alone (fresh environment) and merged behind the given programs.
+/// -> `(jsonrun (alone O) (merged O))`, function ids erased.
+fn json_line(line: &str) -> String {
+    let items = sexp::parse_all(line);
+    let mut text = String::new();
+    let mut behind: Vec<String> = vec![];
+    for it in &items {
+        if let Sexp::List(l) = it
+            && !l.is_empty()
+        {
+            match l[0].atom() {
+                "json" => text = l[1].atom().to_string(),
+                "behind" => behind = l[1..].iter().map(|s| s.atom().to_string()).collect(),
+                _ => {}
+            }
+        }
+    }
+    let bc: Bytecode = match serde_json::from_str(&text) {
+        Ok(b) => b,
+        Err(e) => return format!("(jsonrun (bad-json {}))", sexp::quote(&e.to_string())),
+    };
+    let one = |priors: &[String]| -> String {
+        let mut env = EnvRun::new();
+        for p in priors {
+            let p2 = p.clone();
+            if let Ok(Ok(pc)) = guarded(move || qvh::compile_source(&p2, HashMap::new()))
+                && let Ok(pb) = guarded(|| pc.program.to_bytecode_optimized(pc.entry))
+            {
+                let _ = guarded(|| env.merge_only(pb));
+            }
+        }
+        let b2 = bc.clone();
+        match guarded(|| env.merge_and_start(b2)) {
+            Ok(Ok((pid, m))) => match guarded(|| env.run(pid, &m, &|_| None)) {
+                Ok(s) => s,
+                Err(loc) => format!("(panic \"{}\")", loc),
+            },
+            Ok(Err(e)) => format!("(merge-error {})", sexp::quote(&e)),
+            Err(loc) => format!("(panic \"{}\")", loc),
+        }
+    };
+    format!("(jsonrun (alone {}) (merged {}))", one(&[]), one(&behind))
+}
+
 fn main() {
     qvh::quiet_panics();
     let args: Vec<String> = std::env::args().collect();
     let dump = !args.iter().any(|a| a == "--no-dump");
     let import = args.iter().any(|a| a == "--import");
     for line in qvh::stdin_cases() {
+        if args.iter().any(|a| a == "--dump-json") {
+            println!("{}", dump_json_line(&line));
+            continue;
+        }
+        if args.iter().any(|a| a == "--json") {
+            match guarded(|| json_line(&line)) {
+                Ok(s) => println!("{}", s.replace('\n', " ")),
+                Err(loc) => println!("(panic \"{}\")", loc),
+            }
+            continue;
+        }
         let out = if import {
             guarded(|| import_line(&line))
         } else {
